@@ -15,7 +15,7 @@ PROPERTY = 'C08'
 def cfg_for(lf: int, tier: str) -> dict:
     cap = {2: 6, 3: 7, 4: 8}.get(lf, 2 * lf)
     if tier == 'quick':
-        cap = {2: 5, 3: 6}.get(lf, cap)
+        cap = {2: 5, 3: 5}.get(lf, cap)
     return {
         'lf': lf, 'cap': cap, 'maxins': min(cap, lf + 1), 'nl_classes': ['n', 'm'],
         'maxnl': 1 if lf >= 4 else 2, 'oracles': ['pos'], 'update': True, 'update_classes': ['x', 'n', 'm', 'e', 'k', 'j', 'f'], 'empty': True,
